@@ -562,6 +562,8 @@ pub fn c13(case: &Case) -> Verdict {
         Err((i, m)) => return Skip(format!("builder call {} panicked: {}", i, m)),
     };
     let infos = live.infos.clone();
+    // the controller-data check below needs R1 to be absent before setup (the harness world pre-inserts the resource pool)
+    let _ = live.world.remove::<R1>();
     for call in ["first", "second"] {
         live.setup();
         let mut seen: HashMap<usize, usize> = HashMap::new();
